@@ -408,6 +408,7 @@ var BaseForms = []BaseForm{
 	{Name: "abs-nopath", Servers: []spec.Server{{URL: "https://example.com"}}, Want: ""},
 	{Name: "vars", Servers: []spec.Server{{URL: "https://{h}.example.com/{bp}", Vars: map[string]string{"h": "api", "bp": "v1"}}}, Want: "/v1"},
 	{Name: "flag", Flag: "/v1", Want: "/v1"},
+	{Name: "flag-slash", Flag: "/v1/", Want: "/v1"},
 	{Name: "flag-over-servers", Servers: []spec.Server{{URL: "/v9"}}, Flag: "/v1", Want: "/v1"},
 	{Name: "two-servers", Servers: []spec.Server{{URL: "/v1"}, {URL: "/v2"}}, Want: "/v1"},
 }
